@@ -12,8 +12,14 @@ T1 == << <<"set", "a", 1>>, <<"tick">>, <<"get", "r">>, <<"set", "b", 1>>, <<"ti
          <<"delay", 10>>, <<"set", "b", 0>>, <<"get", "y">> >>
 T2 == << <<"tick">>, <<"get", "y">>, <<"get", "x">>, <<"tick">>, <<"get", "y">>, <<"set", "a", 1>>, <<"delay", 10>>, <<"get", "y">>,
          <<"time">>, <<"get", "q">>, <<"get", "rq">> >>
-AllScriptSets == {<<S1>>, <<S2>>, <<S3>>, <<T1, T2>>, <<T2, T1>>}
-QuickScriptSets == {<<S1>>, <<S2>>, <<T1, T2>>, <<T2, T1>>}
+(* waiting for changes / edges of signals that cannot glitch (x: one comb stage from the inputs; r, q: registers) *)
+T3 == << <<"changed", "r">>, <<"get", "q">>, <<"time">>, <<"edge", "q", 1>>, <<"time">>, <<"get", "r">>, <<"set", "b", 1>>,
+         <<"changed", "q">>, <<"get", "mem">> >>
+T4 == << <<"set", "a", 1>>, <<"delay", 8>>, <<"set", "a", 0>>, <<"tick">>, <<"set", "a", 1>>, <<"delay", 13>>, <<"set", "b", 1>>,
+         <<"tick">>, <<"tick">>, <<"get", "rq">> >>
+T5 == << <<"changed", "x">>, <<"time">>, <<"get", "y">>, <<"edge", "x", 0>>, <<"time">>, <<"changed", "x">>, <<"time">> >>
+AllScriptSets == {<<S1>>, <<S2>>, <<S3>>, <<T1, T2>>, <<T2, T1>>, <<T3, T4>>, <<T4, T3>>, <<T4, T5>>, <<T5, T4, T3>>}
+QuickScriptSets == {<<S1>>, <<S2>>, <<T1, T2>>, <<T2, T1>>, <<T3, T4>>, <<T4, T5>>}
 OneScriptSet == {<<S1>>}
 TwoTbSets == {<<T1, T2>>}
 AllFns == 0..15
